@@ -330,3 +330,99 @@ Proof.
 Qed.
 
 Print Assumptions relay_append_correct.
+
+(* ---------------- continuation frames of an appended call ---------------- *)
+(* a call req continue frame of the original call: flags, checksum type, checksum, one chunk
+   (after arg3 has started every continuation carries exactly one chunk) *)
+Definition cont_payload (flags ctb : Z) (ckb d : list Z) : list Z := [flags; ctb] ++ ckb ++ be 2 (zlen d) ++ d.
+
+Lemma rd_bytes_all d n : length d = n -> r_bytes n (rb d) = (d, rb []).
+Proof. intros H. rewrite <- (app_nil_r d) at 1. apply rd_bytes, H. Qed.
+
+Lemma update_cont_layout flags ctb ckb d ck : zlen ckb = ck_size ck -> zlen d <= 65535 ->
+  update_cont_ck (cont_payload flags ctb ckb d) ck = (cont_payload flags ctb (ck_sum (ck_add ck d)) d, ck_add ck d).
+Proof.
+  intros Hc Hd. pose proof (zlen_nonneg d) as Nd. pose proof (zlen_nonneg ckb) as Nc.
+  unfold update_cont_ck, cont_payload.
+  change ([flags; ctb] ++ ckb ++ be 2 (zlen d) ++ d) with ([flags] ++ [ctb] ++ ckb ++ be 2 (zlen d) ++ d).
+  rewrite (rd_bytes [flags] _ 1 eq_refl). rewrite (rd_bytes [ctb] _ 1 eq_refl).
+  rewrite <- Hc. rewrite (rd_bytes ckb _ (Z.to_nat (zlen ckb)) (eq_sym (zlen_len ckb))).
+  rewrite (rd_u16 (zlen d)) by lia. rewrite (rd_bytes_all d (Z.to_nat (zlen d)) (eq_sym (zlen_len d))).
+  change (rerr (rb (be 2 (zlen d) ++ d))) with false. cbv iota.
+  replace (skipn (Z.to_nat (2 + zlen ckb)) ([flags] ++ [ctb] ++ ckb ++ be 2 (zlen d) ++ d)) with (be 2 (zlen d) ++ d).
+  2:{ replace (Z.to_nat (2 + zlen ckb)) with (S (S (length ckb))) by (unfold zlen; lia).
+      cbn [app skipn]. symmetry. apply skipn_app_exact. reflexivity. }
+  reflexivity.
+Qed.
+
+(* the continuation fragments as the destination receives them: chunk unchanged, checksum
+   field = running checksum continued from the state the relay item keeps *)
+Fixpoint patched (ck : ckst) (conts : list (bool * list Z)) : list frag :=
+  match conts with
+  | [] => []
+  | (more, d) :: r => mkFrag more (ck_typecode ck) (ck_sum (ck_add ck d)) [d] :: patched (ck_add ck d) r
+  end.
+
+Lemma ck_chain_app fs : forall c gs, ck_chain c fs -> ck_chain (ck_end c fs) gs -> ck_chain c (fs ++ gs).
+Proof.
+  induction fs as [|f fs IH]; intros c gs H1 H2; [exact H2|].
+  cbn [app ck_chain] in *. destruct H1 as (A & B & C). split; [exact A|]. split; [exact B|].
+  apply IH; [exact C|exact H2].
+Qed.
+
+Lemma patched_chain conts : forall ck, ck_chain ck (patched ck conts).
+Proof.
+  induction conts as [|[more d] r IH]; intros ck; [exact I|].
+  cbn [patched ck_chain f_chunks f_ck f_ctype fold_left]. split; [reflexivity|]. split; [reflexivity|]. apply IH.
+Qed.
+
+Lemma patched_events conts : forall ck,
+  flat_map frag_events (chunks_of (patched ck conts)) = map (fun c => Cont (snd c)) conts.
+Proof.
+  induction conts as [|[more d] r IH]; intros ck; [reflexivity|].
+  cbn [patched chunks_of map flat_map f_chunks frag_events app snd]. f_equal. apply IH.
+Qed.
+
+Lemma fold_conts conts : forall closed cur,
+  fold_left ev_step (map (fun c : bool * list Z => Cont (snd c)) conts) (closed, cur) = (closed, cur ++ concat (map snd conts)).
+Proof.
+  induction conts as [|[more d] r IH]; intros closed cur; cbn [map fold_left concat snd].
+  - rewrite app_nil_r. reflexivity.
+  - unfold ev_step at 2. cbn [fst snd]. rewrite IH, app_assoc. reflexivity.
+Qed.
+
+Lemma denote_with_conts fs args last ck conts :
+  denote (chunks_of fs) = args ++ [last] ->
+  denote (chunks_of (fs ++ patched ck conts)) = args ++ [last ++ concat (map snd conts)].
+Proof.
+  unfold denote. intros H. rewrite chunks_of_app, flat_map_app, denote_events_app, patched_events.
+  destruct (denote_events (flat_map frag_events (chunks_of fs))) as [closed cur].
+  apply app_inj_tail in H. destruct H as [-> ->]. rewrite fold_conts. reflexivity.
+Qed.
+
+(* the whole appended call as the destination receives it: the re-fragmented first frame
+   followed by the original continuation frames with patched checksums *)
+Theorem relay_append_whole : forall flags ttl tr service hdrs ct ckb a1 h a3 appends ck0,
+  first_ok tr service hdrs ct ckb a1 (s_theaders h) a3 ->
+  let p := callreq_first flags ttl tr service hdrs ct ckb a1 (s_theaders h) a3 in
+  zlen p <= c_MaxFramePayloadSize ->
+  hs_as (hsel_fold hdrs (mkHsel [] [] [] [])) = c_Thrift ->
+  ck_new ct = Some ck0 ->
+  kvs16_ok h -> kvs16_ok appends -> zlen h + zlen appends <= 65535 ->
+  exists lz fs,
+    lazy_callreq p = (0, lz) /\
+    append_send p lz appends ck0
+      = (0, relay_frag_payloads flags (s_callreq ttl tr service hdrs) true fs, ck_end ck0 fs) /\
+    forall conts,
+      ck_chain ck0 (fs ++ patched (ck_end ck0 fs) conts) /\
+      denote (chunks_of (fs ++ patched (ck_end ck0 fs) conts)) = [a1; s_theaders (h ++ appends); a3 ++ concat (map snd conts)].
+Proof.
+  intros flags ttl tr service hdrs ct ckb a1 h a3 appends ck0 Hf p Hlen Has Hck Hh Ha Hsum.
+  destruct (relay_append_correct flags ttl tr service hdrs ct ckb a1 h a3 appends ck0 Hf Hlen Has Hck Hh Ha Hsum)
+    as (lz & fs & EL & ES & D & _ & C & _).
+  exists lz, fs. split; [exact EL|]. split; [exact ES|]. intros conts. split.
+  - apply ck_chain_app; [exact C|apply patched_chain].
+  - apply (denote_with_conts fs [a1; s_theaders (h ++ appends)] a3). exact D.
+Qed.
+
+Print Assumptions relay_append_whole.
